@@ -5,9 +5,20 @@ CLAIMED = json.load(open("/verif/claims.json"))
 NA = {}
 ALL = [json.loads(l)["id"] for l in open("/verif/properties.jsonl")]
 checks = []
+import os
+def rule_list(pid):
+    """rule ids and their one-line docs, from the last evidence written by the check itself"""
+    f=f"/verif/evidence/{pid}.json"
+    if not os.path.exists(f): return ""
+    try:
+        rules=json.load(open(f))["coverage"]["rules"]
+    except Exception:
+        return ""
+    return " Rules decided by this check (id: statement; every rule has mutants that must fire in the thorough tier): " + "; ".join(f"{r['id']}: {r['doc']}" for r in rules) + "."
 for pid in ALL:
     if pid in CLAIMED:
-        c = CLAIMED[pid]
+        c = dict(CLAIMED[pid])
+        c["text"] = c["text"] + rule_list(pid)
         checks.append({
             "property_id": pid,
             "quick_cmd": f"./check {pid} quick",
